@@ -408,6 +408,12 @@ class Sim:
                     name = rng.choice(user)
                     ty = pa.properties[name].get_c_type()
                     st = pa.stride.get(name, 1)
+                    if rng.random() < 0.5:
+                        # the documented harmless call: re-declare an existing
+                        # (possibly strided) property without giving a stride
+                        return dict(op=k, s=s, name=name, type=ty,
+                                    default=rng.choice([None, rng.randint(0, 40)]),
+                                    data=None, stride=1)
                 dflt = rng.choice([None, None, rng.randint(0, 40),
                                    -rng.randint(1, 9) if ty not in ('unsigned int',) else 7])
                 data = None
@@ -903,6 +909,13 @@ def shrink(seed, ops, key):
 
 
 CORPUS = [
+    # re-declaring a strided property without stride= must keep its stride
+    [dict(op='new', s=0, name='f'), dict(op='new', s=1, name='g'),
+     dict(op='add_property', s=0, name='A', type='double', default=None, data=None, stride=3),
+     dict(op='add_particles', s=0, align=1, given={'tag': [0, 0, 0], 'A': [80, 81, 82, 144, 145, 146, 208, 209, 210]}),
+     dict(op='add_property', s=0, name='A', type='double', default=None, data=None, stride=1),
+     dict(op='remove_particles', s=0, idx=[0], align=1),
+     dict(op='extend', s=0, k=2)],
     # F3: remove a strided property, add it back with stride 1, grow the array
     [dict(op='new', s=0, name='f'), dict(op='new', s=1, name='g'),
      dict(op='add_property', s=0, name='A', type='double', default=None, data=None, stride=3),
